@@ -2,6 +2,7 @@ package checks
 
 import (
 	"fmt"
+	"go/ast"
 	"sort"
 	"strings"
 
@@ -12,7 +13,7 @@ func init() {
 	register("C03", checkC03)
 	describe("C03", Meta{
 		Technique: "symbolic instruction-field algebra (LAYOUT): the field lists written by each Assembler, read by each Disassembler and declared by Op_get_instruction_len are extracted from the AST as linear forms over the architecture's widths and compared, in all four execution-mode cases; field provenance gives the range-check clause",
-		Claim:     "Decides structural clauses of C03 for every opcode type: (a) the nominal length declared by Op_get_instruction_len equals opcode bits plus the widths the Assembler appends, and the Assembler pads from exactly that length up to Max_word(); (b) every slice the Disassembler reads is a field the Assembler wrote (same offset, same width); (c) every field the Assembler appends is bounded by its width by construction (register lookup loop bounded by 2^width, Process_input/output/shared bounded by the port/object count) or the accepting function rejects words whose length is not Max_word(). (L3K) the Disassembler prints a register/input/output field with the name function that inverts the Assembler's parser for it. Symbolic in every width, so all register sizes and R/N/M/L/O at once. Necessary conditions; Process_number's parsing and asm(disasm(w)) outside the assembler's image are not decided.",
+		Claim:     "Decides structural clauses of C03 for every opcode type: (a) the nominal length declared by Op_get_instruction_len equals opcode bits plus the widths the Assembler appends, and the Assembler pads from exactly that length up to Max_word(); (b) every slice the Disassembler reads is a field the Assembler wrote (same offset, same width); (c) every field the Assembler appends is bounded by its width by construction (register lookup loop bounded by 2^width, Process_input/output/shared bounded by the port/object count) or the accepting function rejects words whose length is not Max_word(). (DECODEWIDTH) a base-2 strconv.Parse* used to decode bit strings parses at 64 bits and looks at its error. (L3K) the Disassembler prints a register/input/output field with the name function that inverts the Assembler's parser for it. Symbolic in every width, so all register sizes and R/N/M/L/O at once. Necessary conditions; Process_number's parsing and asm(disasm(w)) outside the assembler's image are not decided.",
 		Note:      "The Assembler idioms are the six shapes found in the tree (result/partial += zeros_prefix(W, get_binary(i) | partial), result += partial, result += \"0\" pad loop); an expression outside the recognised forms yields a '?' symbol and makes the obligation undecided.",
 		DesignRef: "DESIGN.md §1.5, §2 C03",
 	})
@@ -192,6 +193,7 @@ func checkC03(r *core.Run) {
 		}
 	}
 	r.Count("printer_kind_fields", kp)
+	c03DecodeWidth(r, prog)
 	_ = sort.Strings
 }
 
@@ -200,4 +202,67 @@ func checkC03(r *core.Run) {
 func wordLengthChecked(prog *core.Program) bool {
 	// decided structurally in layout_accept.go
 	return acceptorChecksLength(prog)
+}
+
+// c03DecodeWidth (C03/DECODEWIDTH): instruction fields are as wide as the register size (up to 64
+// bits). A conversion of a bit string to a number in pkg/procbuilder through strconv.ParseInt /
+// ParseUint with base 2 must therefore parse at 64 bits (bitSize 0 or 64) and must not drop the
+// error: a narrower bitSize makes ParseUint clamp (and report an error that a `_` discards), so a
+// wide field decodes to another value than was encoded. Expected population on this tree: none
+// (get_id converts by hand); the rule exists for the day the hand-written loop is replaced.
+func c03DecodeWidth(r *core.Run, prog *core.Program) {
+	pk := prog.Pkg("pkg/procbuilder")
+	if pk == nil {
+		return
+	}
+	info := pk.TypesInfo
+	n := 0
+	core.FuncDecls(pk, func(_ *ast.File, fd *ast.FuncDecl) {
+		k := 0
+		ast.Inspect(fd.Body, func(nd ast.Node) bool {
+			var call *ast.CallExpr
+			dropped := false
+			switch x := nd.(type) {
+			case *ast.AssignStmt:
+				if len(x.Rhs) == 1 && len(x.Lhs) == 2 {
+					if c, ok := ast.Unparen(x.Rhs[0]).(*ast.CallExpr); ok {
+						call = c
+						if id, ok := x.Lhs[1].(*ast.Ident); ok && id.Name == "_" {
+							dropped = true
+						}
+					}
+				}
+			default:
+				return true
+			}
+			if call == nil || len(call.Args) != 3 {
+				return true
+			}
+			c := core.CalleeOf(info, call)
+			if c == nil || c.Pkg() == nil || c.Pkg().Path() != "strconv" || (c.Name() != "ParseInt" && c.Name() != "ParseUint") {
+				return true
+			}
+			btv, ok := info.Types[call.Args[1]]
+			if !ok || btv.Value == nil || btv.Value.String() != "2" {
+				return true
+			}
+			k++
+			n++
+			inst := fmt.Sprintf("C03/DECODEWIDTH:%s:parse%d", core.FuncKey(pk, fd), k)
+			size := "?"
+			if tv, ok := info.Types[call.Args[2]]; ok && tv.Value != nil {
+				size = tv.Value.String()
+			}
+			switch {
+			case size != "0" && size != "64":
+				r.Violation("C03/DECODEWIDTH", inst, prog.Pos(call.Pos()), fmt.Sprintf("%s decodes a bit string with strconv.%s(…, 2, %s): a field wider than %s bits (fields are as wide as the register size, up to 64) is clamped to the maximum instead of decoded — disassembling or simulating an assembled word does not give back the operand that was encoded", core.FuncKey(pk, fd), c.Name(), size, size))
+			case dropped:
+				r.Violation("C03/DECODEWIDTH", inst, prog.Pos(call.Pos()), fmt.Sprintf("%s decodes a bit string with strconv.%s and discards the error: a malformed or over-long field silently decodes to a clamped value", core.FuncKey(pk, fd), c.Name()))
+			default:
+				r.OK("C03/DECODEWIDTH", inst, prog.Pos(call.Pos()), "base-2 parse at 64 bits with the error looked at")
+			}
+			return true
+		})
+	})
+	r.Count("base2_parses", n)
 }
